@@ -541,7 +541,7 @@ func c01replayFn(payload json.RawMessage) (string, bool) {
 func init() {
 	register(&report.Check{
 		ID: "C01",
-		Rule: "explicit-state BFS over the mutation graph of signed states (step JSON, verification env, repository URL, signature record, key): from five signed initial states (minimal; rich with nested plugin configs, " +
+		Rule: "explicit-state BFS over the mutation graph of signed states (step JSON, verification env, repository URL, signature record, key): from seven signed initial states (minimal; a 5 kB command with 3 kB / 2 kB env values; a single named matrix dimension; rich with nested plugin configs, " +
 			"step env, matrix with adjustments, pipeline env of three variables one of them shadowed; anonymous matrix with empty step env; adjustment-only matrix with an empty-valued pipeline variable), every single-point " +
 			"mutation at every position is a transition (per string: change first char, drop last / middle char, append, append space, prepend newline; per collection: remove, duplicate, swap adjacent, reorder, append, empty, " +
 			"rename key, key/value and item/item boundary shifts; scalar re-typing; nil/empty and short/canonical spellings; unsigned fields; env: change / remove / empty / rename each variable, add unrelated, add a variable named like the signed field command / repository_url carrying the signed value, move variables " +
